@@ -36,6 +36,17 @@ class Tx(ast.NodeTransformer):
         if len(n.targets) == 1 and isinstance(n.targets[0], ast.Subscript) and not isinstance(n.targets[0].slice, ast.Slice):
             t = n.targets[0]
             return ast.copy_location(ast.Expr(ast.Call(ast.Name("__sx_setitem__", ast.Load()), [t.value, t.slice, n.value], [])), n)
+        if len(n.targets) > 1 and any(isinstance(t, ast.Subscript) and not isinstance(t.slice, ast.Slice) for t in n.targets):
+            # a = d[k] = v  ->  tmp = v; a = tmp; __sx_setitem__(d, k, tmp)   (targets assigned left to right, as Python does)
+            self._tmp = getattr(self, "_tmp", 0) + 1
+            tmp = "__sx_tmp%d" % self._tmp
+            out = [ast.copy_location(ast.Assign([ast.Name(tmp, ast.Store())], n.value), n)]
+            for t in n.targets:
+                if isinstance(t, ast.Subscript) and not isinstance(t.slice, ast.Slice):
+                    out.append(ast.copy_location(ast.Expr(ast.Call(ast.Name("__sx_setitem__", ast.Load()), [t.value, t.slice, ast.Name(tmp, ast.Load())], [])), n))
+                else:
+                    out.append(ast.copy_location(ast.Assign([t], ast.Name(tmp, ast.Load())), n))
+            return [ast.fix_missing_locations(o) for o in out]
         return n
 
     def visit_Delete(self, n):
